@@ -345,6 +345,10 @@ class Lark(Serialize, Generic[_Return_T]):
 
                 unhashable = ('transformer', 'postlex', 'lexer_callbacks', 'edit_terminals', '_plugins')
                 options_key = [(k, str(v)) for k, v in options.items() if k not in unhashable]
+                if self.options.postlex is not None:
+                    # The postlexer itself is applied when loading, but the terminals that it asks
+                    # to keep (even when no rule uses them) are part of what gets cached
+                    options_key.append(('postlex.always_accept', str(sorted(self.options.postlex.always_accept))))
                 from . import __version__
                 # The same grammar text imports other files when it is loaded from another place,
                 # so the path that relative imports are resolved against is part of the key.
